@@ -20,7 +20,9 @@ RULE = ("cases = (comment style out of 11, line ending, entry point out of 11 "
         "delimiters (also nested inside themselves), ';', parentheses, G-code "
         "payloads, format-string fragments, non-ASCII; optionally the same text "
         "was used before on the same builder under another style; optionally with "
-        "a move hook registered; full-width look-alikes of the delimiters); non-trivial = the text contains a line break "
+        "a move hook registered; full-width look-alikes of the delimiters; the "
+        "same hostile fragment repeated 8..24 times; the style configured with "
+        "surrounding blanks); non-trivial = the text contains a line break "
         "or the closing delimiter of the active style; distinct by SHA-1")
 ASSUMPTIONS = [
     "a controller ends a block (and therefore a comment) at any raw CR or LF",
@@ -78,10 +80,15 @@ def _passthrough_hook(origin, target, params, state):
     return params
 
 
-def run_entry(style, eol, entry, text, prev_style=None, hook=False):
+PADS = ["{}", "{} ", " {}", " {} ", "\t{}", "{}\n"]
+
+
+def run_entry(style, eol, entry, text, prev_style=None, hook=False, pad=0):
     import gscrib
     cfg_eol, _ = eol_of(eol)
-    g = gscrib.GCodeBuilder(comment_symbols=prev_style or style, line_endings=cfg_eol)
+    # the style may be configured with surrounding blanks (the library strips them)
+    style_cfg = PADS[pad % len(PADS)].format(style)
+    g = gscrib.GCodeBuilder(comment_symbols=prev_style or style_cfg, line_endings=cfg_eol)
     rec = recorder_class()()
     g.add_writer(rec)
     if hook:
@@ -90,7 +97,7 @@ def run_entry(style, eol, entry, text, prev_style=None, hook=False):
         # the same text was already used on this builder under another comment
         # style; then the style is changed (a formatter must not remember it)
         _emit(g, entry, text)
-        g.format.set_comment_symbols(style)
+        g.format.set_comment_symbols(style_cfg)
         del rec.data[:]
     _emit(g, entry, text)
     return bytes(rec.data)
@@ -127,12 +134,12 @@ def check(case):
     if prev == style:
         prev = None
     try:
-        base = run_entry(style, eol, entry, "x", prev, bool(case.get("hook")))
+        base = run_entry(style, eol, entry, "x", prev, bool(case.get("hook")), case.get("pad", 0))
     except Exception as e:
         raise Violation(f"style {style!r}: {entry} with an innocuous comment "
                         f"raised {type(e).__name__}: {e}")
     try:
-        out = run_entry(style, eol, entry, text, prev, bool(case.get("hook")))
+        out = run_entry(style, eol, entry, text, prev, bool(case.get("hook")), case.get("pad", 0))
     except ValueError:
         return "rejected"
     except Exception as e:
@@ -163,6 +170,10 @@ def classes_of(case):
         cl.append("non_ascii")
     if case.get("hook"):
         cl.append("move_hook_registered")
+    if case.get("pad"):
+        cl.append("style_configured_with_blanks")
+    if max(t.count("\n") + t.count("\r"), t.count(close) if close else 0) >= 9:
+        cl.append("nine_or_more_breaks_or_closers")
     if case.get("prev_style") and case["prev_style"] != case["style"]:
         cl.append("style_changed_on_same_builder")
     return cl
@@ -197,13 +208,20 @@ def strategy():
         frag = st.one_of(hostile, st.sampled_from(aimed), st.sampled_from(aimed),
                          st.text(max_size=6),
                          st.text(alphabet="GMXYZ0123456789 .-", max_size=8))
-        return st.lists(frag, min_size=0, max_size=7).map("".join)
+        short = st.lists(frag, min_size=0, max_size=7).map("".join)
+        # the same hostile fragment many times over (a pasted multi-line header;
+        # sanitisers that only handle the first few occurrences)
+        many = st.tuples(st.sampled_from(aimed + ["\n", "\r\n", "\r"]), st.integers(8, 24),
+                         st.sampled_from(["", "l", "G0 Z-5 ", "M3 S1 "])).map(
+            lambda t: (t[2] + t[0]) * t[1] + t[2])
+        return st.one_of(short, short, short, short, many)
 
     return st.sampled_from(STYLES).flatmap(lambda sty: st.fixed_dictionaries({
         "style": st.just(sty), "eol": st.sampled_from(EOLS),
         "entry": st.sampled_from(ENTRIES), "text": text_for(sty),
         "prev_style": st.one_of(st.none(), st.none(), st.sampled_from(STYLES)),
-        "hook": st.sampled_from([False, False, True])}))
+        "hook": st.sampled_from([False, False, True]),
+        "pad": st.sampled_from([0, 0, 0, 1, 2, 3, 4, 5])}))
 
 
 def run_shard(ctx):
